@@ -40,8 +40,9 @@ static unsigned long long pick(void)
   static const unsigned char interesting[] = { ':', ':', ':', ' ', '\t', '\n', '_', 'a', 'b', '0', '1', '9', ',', '/', '.', '=', 0x7f, 0x80, 0xff, 1, 0x1f, '<', '>', '&', '"', '\'', '-', '[', ']', ';', '#', '\\' };
   unsigned long long r = rnd();
   switch (r & 7) {
-  case 0: case 1: case 2: return (r >> 8) % 9;                      /* small: lengths, kinds, booleans */
-  case 3: case 4: case 5: return interesting[(r >> 8) % sizeof interesting];
+  case 0: case 1: case 2: return (r >> 8) % 4;                      /* very small: lengths, kinds, booleans, letters */
+  case 3: return (r >> 8) % 9;
+  case 4: case 5: return interesting[(r >> 8) % sizeof interesting];
   case 6: return (r >> 8) & 0xff;
   default: return (r >> 8) % 40;
   }
